@@ -68,6 +68,7 @@ ASSUMPTIONS = ['templates nested deeper than 64 levels are not generated '
                'attribute name with "expr" (expr=, sort_expr, reverse_expr, '
                'branches_expr), also when it is given without a value']
 CASE_CPU_SECONDS = 600.0
+CASE_CPU_SECONDS_QUICK = 30.0
 ONE_CPU_SECONDS = 4.0
 
 HTML_TOK = ['<dtml-', '</dtml-', '<!--#', '-->', '>', '&dtml-', '&dtml.',
